@@ -10,7 +10,8 @@ R  every complete behaviour (schedule) of the W = 2 model (thorough: sampled W =
    Wait, workers before receive / after receive / before wg.Done) on an exact scene whose layers need
    three real batches; the strictly sequential schedule is judged by UniTrace.tla against the exact
    predicted mesh, every other schedule must give the same triangle sequence (DetTrace.tla).
-T  free runs: GOMAXPROCS in {1,2,3,NumCPU}, randomly slow/yielding Evaluate, earlier and concurrent
+T  hook-event logs of free-running renders (GOMAXPROCS 1, 2, NumCPU) are validated step by step against
+   EvalPool.tla with all its invariants (EvalPoolTrace.tla); free runs: GOMAXPROCS in {1,2,3,NumCPU}, randomly slow/yielding Evaluate, earlier and concurrent
    renders, uniform and octree, in-memory, STL bytes, decoded 3MF content, DXF, SVG: DetTrace.tla memo.
 """
 import json, random
@@ -32,6 +33,23 @@ INVARIANT NoBufferInFlightReused
 INVARIANT EveryLayerCorrect
 INVARIANT EmitSchedule
 %s
+CHECK_DEADLOCK FALSE
+"""
+
+POOLTRACE_CFG = """SPECIFICATION TraceSpec
+CONSTANT W = %d
+CONSTANT NR = 1
+CONSTANT N = %d
+CONSTANT B = %d
+CONSTANT Layers = %d
+CONSTANT Cap = 100
+CONSTANT Fresh = TRUE
+CONSTANT Emit = FALSE
+INVARIANT SlotsOnce
+INVARIANT NoBufferInFlightReused
+INVARIANT EveryLayerCorrect
+VIEW tview
+POSTCONDITION HighWater
 CHECK_DEADLOCK FALSE
 """
 
@@ -180,6 +198,30 @@ def run(chk, replay_rec):
         conds = [d["cond"] for d in det if d["key"] == e["key"] and d["digest"] == e["digest"]]
         chk.violation("free-run:%s:%s" % (e["key"], why), "output of %s differs between runs (%s): e.g. under %s" % (e["key"], why, conds[:2]),
                       dict(kind="free-run", key=e["key"]))
+    # ---- T: event-level conformance of the free-running pool with EvalPool.tla
+    import os
+    ncpu = os.cpu_count() or 4
+    rejected = 0
+    for gmp in sorted({1, 2, ncpu}):
+        out = chk.vh(["c09-pool-record"], timeout=600, env={"GOMAXPROCS": str(gmp)})
+        rec = json.loads(out.strip().splitlines()[0])
+        cfg = POOLTRACE_CFG % (max(ncpu, max([e[1] for e in rec["events"] if e[0] >= 3] + [1])), rec["n"], 100, rec["layers"])
+        res = chk.tlc("EvalPoolTrace", cfg_text=cfg, workers=1, timeout=900, count=False,
+                      files={"trace.ndjson": json.dumps(dict(events=rec["events"])) + "\n"},
+                      name="EvalPoolTrace GOMAXPROCS=%d" % gmp)
+        if res.violated:
+            chk.violation("pool-trace:invariant:%s" % ",".join(res.violated),
+                          "an invariant of EvalPool.tla fails on the event log of a real free-running render (GOMAXPROCS=%d): %s" % (gmp, res.violated),
+                          dict(kind="free-run", gomaxprocs=gmp))
+            continue
+        hw = res.printed("HW")
+        if not hw or int(hw[-1]) < 200000:
+            rejected += 1
+            chk.notes.append("pool event log (GOMAXPROCS=%d) not explained by EvalPool.tla beyond event %s" % (gmp, hw[-1] if hw else "?"))
+        chk.events += len(rec["events"])
+        chk.traces += 1
+    if rejected:
+        raise vlib.Inconclusive("real pool event logs are not behaviours of EvalPool.tla (model/code divergence): %s" % chk.notes[-1])
     chk.sample(dict(schedule=obs[1]["sched"], digest=obs[1]["digest"], triangles=obs[1]["nt"], layers=obs[1]["layers"]))
     chk.sample(dict(free_run=det[0]))
     chk.cov.update(dict(schedules_forced=len(obs), schedules_unrealised=unreal, distinct_schedules=len(scheds),
